@@ -105,8 +105,21 @@ def directed(tier):
                                            'fail': {'after': k, 'mode': mode, 'block': 0}},
                                           {'uri': 'good', 'sync': sync, 'fail': None, 'close': None,
                                            'final': True}]})
+    # close_link from a user thread racing a link error that is reported at the same moment (the schedule varies
+    # with the seed): both handlers test cf.link and then use it
+    for k in (0, 1, 2, 3):
+        for phase in ('requested', 'link'):
+            for v in range(6 if tier == 'quick' else 40):
+                n += 1
+                plans.append({'seed': 905000 + n, 'scenario': 'directed-close-vs-error',
+                              'knobs': {'line_mean': 3, 'p_stall': 0.3 if v % 2 else 0.0, 'stall_window': 0.02,
+                                        'needs_resending': True, 'lat': (0.0, 0.0)},
+                              'device': dev,
+                              'ops': [{'uri': 'good', 'sync': False, 'final': False,
+                                       'fail': {'after': k, 'mode': 'driver', 'block': 0},
+                                       'close': {'phase': phase, 'delay': 0.0, 'thread': 'user'}},
+                                      {'uri': 'good', 'sync': False, 'fail': None, 'close': None, 'final': True}]})
     return plans
-
 
 
 URI = {'good': 'sim://cf', 'unknown': 'bogus://1/2', 'malformed': 'sim:/', 'nodevice': 'sim://nobody',
@@ -241,6 +254,11 @@ def run_session(ctx, w, dev, cf, rec, si, s, SyncCrazyflie):
         else:
             ok, _, exc = ctx.bounded(cf.close_link, BOUND, 'cf.close_link')
         rec.note('user:close-ret', who, 'hang' if not ok else ('raised' if exc else 'ok'))
+        if ok and exc is not None:
+            import traceback
+            tb = ''.join(traceback.format_exception(type(exc), exc, exc.__traceback__))
+            late(ctx, si, '5', 'api-raised close_link %s @%s' % (type(exc).__name__, cflib_site(tb)),
+                 'close_link raised %r' % (exc,), tb)
         if not ok:
             late(ctx, si, '5', 'close_link-hang', 'close_link did not return within %gs after %s; stacks: %s'
                           % (BOUND, s, ctx.stack_of('bounded:')[:1]), ctx.stack_of('bounded:'))
@@ -447,7 +465,7 @@ def check_history(ctx, hist, plan):
             tainted = True
             n0 = mark
             for v in ctx.violations[n0:]:
-                if not v['sig'].startswith('C02/5 thread-died') and not v['sig'].startswith('C02/5 deadlock'):
+                if not v['sig'].startswith(('C02/5 thread-died', 'C02/5 deadlock', 'C02/5 hang', 'C02/5 api-raised')):
                     v['msg'] = '%s: %s' % (v['sig'], v['msg'])
                     v['sig'] = 'C02/race raced-attempt%s' % (tag,)
     for (si, clause, sig, msg, detail) in ctx.pending:
